@@ -71,7 +71,13 @@ pub trait AggregateRequestBound: RequestBound {
 /// necessarily yields `delta=1`, which results in `A=0` being the
 /// first element yielded by `step_offsets`.
 pub fn step_offsets(rb: &'_ (impl RequestBound + ?Sized)) -> impl Iterator<Item = Offset> + '_ {
-    rb.steps_iter().map(Offset::closed_from_time_zero)
+    rb.steps_iter()
+        // An interval of length zero cannot contain a step, and there is no
+        // offset `A` such that `[0, A]` is empty. Some step iterators (e.g.,
+        // `ArrivalCurvePrefix::steps_iter`) nonetheless yield a leading zero,
+        // which must be skipped here (rather than wrapped around).
+        .filter(|delta| delta.is_non_zero())
+        .map(Offset::closed_from_time_zero)
 }
 
 mod aggregate;
